@@ -1048,6 +1048,65 @@ def rule_id_attr(model):
     return r
 
 
+def rule_sibling_scope(model):
+    r = RuleResult('C20.R11', 'node ids are unique among siblings only: no '
+                   'collection that is carried through the whole walk of '
+                   'the tree (handed down the recursion and updated on the '
+                   'way) decides by id membership whether a node is '
+                   'entered, listed or expanded')
+    n = 0
+    for fi in model.all_funcs():
+        if fi.module.short != 'TreeTag' or fi.parent is not None:
+            continue
+        params = set(fi.params())
+        rec_calls = [c for c in own_nodes(fi.node) if isinstance(c, ast.Call)
+                     and isinstance(c.func, ast.Name)
+                     and c.func.id == fi.name]
+        if not rec_calls:
+            continue
+        n += 1
+        handed = set()
+        for c in rec_calls:
+            for a in list(c.args) + [k.value for k in c.keywords]:
+                if isinstance(a, ast.Name) and (
+                        a.id in params or any(
+                            isinstance(d, ast.AST) for d in
+                            model.local_defs(fi, a.id))):
+                    handed.add(a.id)
+        mutated = set()
+        for x in own_nodes(fi.node):
+            if isinstance(x, ast.Call) and isinstance(
+                    x.func, ast.Attribute) and x.func.attr in (
+                    'add', 'append', 'update', 'setdefault', 'extend',
+                    'insert') and isinstance(x.func.value, ast.Name):
+                mutated.add(x.func.value.id)
+            if isinstance(x, ast.Subscript) and isinstance(
+                    x.ctx, ast.Store) and isinstance(x.value, ast.Name):
+                mutated.add(x.value.id)
+        walkwide = {v for v in handed & mutated if v in params}
+        r.instance(fi.where, f'def {fi.name}', 'walk-wide collections: ' +
+                   (', '.join(sorted(walkwide)) or 'none'))
+        for x in own_nodes(fi.node):
+            if isinstance(x, ast.Compare) and len(x.ops) == 1 and \
+                    isinstance(x.ops[0], (ast.In, ast.NotIn)) and \
+                    isinstance(x.comparators[0], ast.Name) and \
+                    x.comparators[0].id in walkwide:
+                r.instance(fi.where, x, 'MEMBERSHIP IN A WALK-WIDE '
+                           'COLLECTION')
+                r.finding(fi.where, x, f'`{norm(x)}`: '
+                          f'`{x.comparators[0].id}` is handed down the '
+                          'recursion and filled on the way, so it spans '
+                          'the whole tree, while ids only distinguish '
+                          'siblings: a node whose id occurred in another '
+                          'branch (or equals an ancestor\'s) is treated as '
+                          'already seen and left out of the state',
+                          node=x, ctx=fi)
+    if n < 2:
+        raise AnalysisError(f'C20.R11: only {n} recursive tree functions '
+                            'found')
+    return r
+
+
 def rule_fresh_state(model):
     """The expansion state is updated in place (apply_diff): every state
     the tag builds for a request must be a fresh object, never one that
@@ -1063,7 +1122,7 @@ def rule_fresh_state(model):
     return r
 
 
-RULES_PLAIN = [rule_mirror, rule_chunks, rule_encoder_twins, rule_cleanup_loop, rule_link_agreement, rule_path_stack, rule_apply_diff, rule_expand_all_isolation, rule_id_attr, rule_fresh_state]
+RULES_PLAIN = [rule_mirror, rule_chunks, rule_encoder_twins, rule_cleanup_loop, rule_link_agreement, rule_path_stack, rule_apply_diff, rule_expand_all_isolation, rule_id_attr, rule_fresh_state, rule_sibling_scope]
 RULES = [_inl(r_) for r_ in RULES_PLAIN] if INLINED_VIEW else RULES_PLAIN
 EXPLANATION = (
     'Stage extraction of the encoder and decoder pipelines and comparison '
